@@ -25,12 +25,13 @@ RECURSIVE PSpecs(_)
 RECURSIVE PParams(_)
 RECURSIVE PBinds(_)
 RECURSIVE PNamed(_)
+RECURSIVE PArgs(_)
 
 PList(es, sep) ==
   IF es = <<>> THEN "" ELSE IF Len(es) = 1 THEN P(es[1]) ELSE P(es[1]) \o sep \o PList(Tail(es), sep)
 
 Atomic(e) == e[1] \in {"null", "true", "false", "num", "str", "var", "self", "dollar", "arr", "obj",
-                        "objcomp", "arrcomp", "superf", "superi", "std", "call", "index", "field", "slice"}
+                        "objcomp", "arrcomp", "superf", "superi", "std", "call", "callx", "index", "field", "slice"}
 W(e) == IF Atomic(e) THEN P(e) ELSE "(" \o P(e) \o ")"
 
 PBinds(bs) ==
@@ -46,11 +47,18 @@ PNamed(ns) ==
   IF ns = <<>> THEN ""
   ELSE ns[1][1] \o " = " \o P(ns[1][2]) \o (IF Len(ns) = 1 THEN "" ELSE ", " \o PNamed(Tail(ns)))
 
+PArgs(as) ==
+  IF as = <<>> THEN ""
+  ELSE (IF as[1][1] = "pos" THEN P(as[1][2]) ELSE as[1][2] \o " = " \o P(as[1][3]))
+       \o (IF Len(as) = 1 THEN "" ELSE ", " \o PArgs(Tail(as)))
+
 VisTok(v, plus) == (IF plus THEN "+" ELSE "") \o (CASE v = "d" -> ":" [] v = "h" -> "::" [] v = "v" -> ":::")
 
 PMember(m) ==
   CASE m[1] = "fld" ->
-         (IF m[2][1] = "id" THEN m[2][2] ELSE "[" \o P(m[2][2]) \o "]") \o VisTok(m[3], m[4]) \o " " \o P(m[5])
+         (IF m[2][1] = "id" THEN m[2][2]
+          ELSE IF m[2][1] = "strname" THEN StrLit(m[2][2])
+          ELSE "[" \o P(m[2][2]) \o "]") \o VisTok(m[3], m[4]) \o " " \o P(m[5])
     [] m[1] = "olocal" -> "local " \o m[2] \o " = " \o P(m[3])
     [] m[1] = "oassert" -> "assert " \o P(m[2]) \o (IF m[3] = <<"none">> THEN "" ELSE " : " \o P(m[3]))
 
@@ -78,10 +86,10 @@ P(e) ==
     [] e[1] = "un" -> e[2] \o W(e[3])
     [] e[1] = "arr" -> "[" \o PList(e[2], ", ") \o "]"
     [] e[1] = "index" -> W(e[2]) \o "[" \o P(e[3]) \o "]"
-    [] e[1] = "field" -> W(e[2]) \o "." \o e[3]
+    [] e[1] = "field" -> (IF e[2][1] = "num" THEN "(" \o P(e[2]) \o ")" ELSE W(e[2])) \o "." \o e[3]
     [] e[1] = "slice" ->
          LET o(x) == IF x = <<"none">> THEN "" ELSE P(x) IN
-         W(e[2]) \o "[" \o o(e[3]) \o ":" \o o(e[4]) \o ":" \o o(e[5]) \o "]"
+         W(e[2]) \o "[" \o o(e[3]) \o " : " \o o(e[4]) \o " : " \o o(e[5]) \o "]"
     [] e[1] = "func" -> "function(" \o PParams(e[2]) \o ") " \o P(e[3])
     [] e[1] = "call" ->
          W(e[2]) \o "(" \o PList(e[3], ", ")
@@ -99,4 +107,7 @@ P(e) ==
     [] e[1] = "assert" -> "assert " \o P(e[2]) \o (IF e[3] = <<"none">> THEN "" ELSE " : " \o P(e[3]))
                            \o "; " \o P(e[4])
     [] e[1] = "std" -> "std." \o e[2] \o "(" \o PList(e[3], ", ") \o ")"
+    [] e[1] = "callx" -> W(e[2]) \o "(" \o PArgs(e[3]) \o ")"
+    [] e[1] = "import" -> e[2] \o " " \o (IF e[3][1] \in {"str", "textblock"} THEN P(e[3]) ELSE W(e[3]))
+    [] e[1] = "textblock" -> "|||\n  " \o CpsText(e[2]) \o "\n|||"
 =============================================================================
